@@ -266,11 +266,25 @@ pub fn run_calls(
                     return Err(fmt_error(sink));
                 }
             }
+            WKind::UfmtChars => {
+                for ch in t.chars() {
+                    ufmt::uwrite!(w, "{}", ch)?;
+                }
+            }
+            WKind::FmtChars => {
+                for ch in t.chars() {
+                    if write!(w, "{}", ch).is_err() {
+                        return Err(fmt_error(sink));
+                    }
+                }
+            }
+            WKind::ListElem => {
+                let (name, desc) = c.list_parts();
+                w.write_list_element(name, desc, crate::trace::LIST_ELEM_WIDTH)?;
+            }
+            WKind::Title => w.write_title(t)?,
         }
-        text.push_str(t);
-        if c.kind.appends_lf() {
-            text.push('\n');
-        }
+        text.push_str(&c.spec_text());
     }
     Ok(())
 }
@@ -289,10 +303,7 @@ fn fmt_error(sink: &Sink) -> SimErr {
 pub fn calls_text(calls: &[WCall]) -> String {
     let mut s = String::new();
     for c in calls {
-        s.push_str(&c.text);
-        if c.kind.appends_lf() {
-            s.push('\n');
-        }
+        s.push_str(&c.spec_text());
     }
     s
 }
@@ -336,6 +347,9 @@ pub struct SetMeta {
     pub grouped: bool,
     /// Lines worth typing with this set (valid, each parse error kind, help forms)
     pub lines: &'static [&'static str],
+    /// Lines that are valid invocations by construction of the declaration (the generator
+    /// knows what it declared): typed exactly like this, they must parse and reach a typed handler
+    pub valid_lines: &'static [&'static str],
 }
 
 /// Set 0 through `RawCommand::processor`
